@@ -614,6 +614,58 @@ class Sym:
         return n / peval(self.d)
 
 
+def _mono_key(m):
+    """graded-lex key of a monomial"""
+    return (sum(e for _, e in m), tuple((-s, e) for s, e in m))
+
+
+def _mono_div(a, b):
+    """a / b for monomials, or None when b does not divide a"""
+    da = dict(a)
+    for s, e in b:
+        k = da.get(s, 0) - e
+        if k < 0:
+            return None
+        if k == 0:
+            da.pop(s, None)
+        else:
+            da[s] = k
+    return tuple(sorted(da.items()))
+
+
+def _pdiv_exact(n, d, max_steps=20000):
+    """exact quotient n / d of polynomials (d free of constant roots / i), or None if d does not divide n"""
+    red = T.reduce2
+    for m in d:
+        for s, _ in m:
+            if s in red:
+                return None
+    lead_d = max(d, key=_mono_key)
+    cd = d[lead_d]
+    rem = dict(n)
+    q = {}
+    steps = 0
+    while rem:
+        steps += 1
+        if steps > max_steps:
+            return None
+        lm = max(rem, key=_mono_key)
+        qm = _mono_div(lm, lead_d)
+        if qm is None:
+            return None
+        qc = rem[lm] / cd
+        q[qm] = q.get(qm, 0) + qc
+        # rem -= qc * qm * d
+        for md, c in d.items():
+            mm, f = _mono_mul(qm, md)
+            v = rem.get(mm, 0) - qc * c * f
+            if v == 0:
+                rem.pop(mm, None)
+            else:
+                rem[mm] = v
+    return {m: c for m, c in q.items() if c != 0}
+
+
 def _mk(n, d):
     if not n:
         return Sym({})
@@ -627,6 +679,10 @@ def _mk(n, d):
         return Sym(_pmul(n, _const_inverse(d)))
     if n == d:
         return Sym({ONE_MONO: Fraction(1)})
+    if len(n) >= len(d):
+        q = _pdiv_exact(n, d)
+        if q is not None:
+            return Sym(q)
     return Sym(n, d)
 
 
@@ -758,6 +814,14 @@ def ite(c, a, b):
         return b
     if a.same(b):
         return a
+    from .paths import current
+    cur = current(optional=True)
+    if cur is not None:
+        dec = cur.entailed(c)           # decided by requires / path condition: no if-then-else needed
+        if dec is True:
+            return a
+        if dec is False:
+            return b
     if a.has_i() or b.has_i():
         I = Sym({((I_ID, 1),): Fraction(1)})
         return ite(c, a.real, b.real) + I * ite(c, a.imag, b.imag)
